@@ -68,10 +68,10 @@ pub fn profile(name: &str) -> Profile {
         "c01" => Profile { name: "c01", retained: true, ..base },
         "c03" => Profile { name: "c03", adversarial: true, stale_events: true, shared: true, persistent: true, takeover: true, wills: true, retained: true, v5: true, steps: (20, 200), ..base },
         "c06" => Profile { name: "c06", ..base },
-        "c08" => Profile { name: "c08", persistent: true, takeover: true, clients: (2, 4), ..base },
+        "c08" => Profile { name: "c08", persistent: true, takeover: true, retained: true, clients: (2, 4), ..base },
         "c09" => Profile { name: "c09", clients: (2, 3), ..base },
         "c14" => Profile { name: "c14", adversarial: true, persistent: true, late_signals: true, clients: (3, 5), ..base },
-        "c15" => Profile { name: "c15", retained: true, shared: true, clients: (2, 4), big_bursts: false, ..base },
+        "c15" => Profile { name: "c15", retained: true, shared: true, wills: true, clients: (2, 4), big_bursts: false, ..base },
         "c16" => Profile { name: "c16", wills: true, retained: true, clients: (2, 4), big_bursts: false, ..base },
         "c17" => Profile { name: "c17", shared: true, clients: (3, 5), ..base },
         "c19" => Profile { name: "c19", takeover: true, max_conn_small: true, persistent: true, clients: (3, 6), big_bursts: false, steps: (20, 120), ..base },
@@ -141,7 +141,9 @@ impl<'a> Gen<'a> {
     fn connect(&mut self, i: usize) {
         let s = self.sims[i].clone();
         let will = if self.p.wills && self.rng.chance(1, 2) {
-            format!("{} {} {} {}", hex(rand_topic(&mut self.rng).as_bytes()), hex(format!("w{}", s.l).as_bytes()), self.rng.below(2), self.rng.below(2))
+            // the will payload is sometimes empty (a retained will with an empty message clears the topic)
+            let payload = if self.rng.chance(1, 5) { String::new() } else { format!("w{}", s.l) };
+            format!("{} {} {} {}", hex(rand_topic(&mut self.rng).as_bytes()), hex(payload.as_bytes()), self.rng.below(2), self.rng.below(2))
         } else {
             "-".to_string()
         };
